@@ -57,6 +57,9 @@ impl SharedBrotliDecoder for SimDecoder {
                 return Err(decode_error_kind(kind));
             }
         }
+        if let Some(r) = super::encode::sim_decode(encoded, dict, max) {
+            return r.map_err(decode_error_kind);
+        }
         BuiltInBrotliDecoder.decode(encoded, dict, max)
     }
 }
@@ -763,11 +766,24 @@ impl Sim<'_> {
                         Fault::NetCorruptHeader { fetch, which, .. } if *fetch == fi && retries_this_round == 0 && !content_faulted => {
                             content_faulted = true;
                             if let Some(b) = body.as_mut() {
-                                match which % 3 {
+                                match which % 4 {
                                     0 => b[1] ^= 0x20,
                                     1 => {
                                         let at = (if b.starts_with(b"ifgk") { 9 } else { 8 }) + 3;
                                         b[at] ^= 0x01;
+                                    }
+                                    3 => {
+                                        // the patch carries the compatibility id of the font's OTHER mapping table
+                                        let at = if b.starts_with(b"ifgk") { 9 } else { 8 };
+                                        let mine = server.get(u).map(|x| x.0);
+                                        let other = model.maps.iter().flatten().find(|m| Some(m.version) != mine).map(|m| w.versions[m.version].compat);
+                                        match other {
+                                            Some(c) if b.len() >= at + 16 && b[at..at + 16] != c => {
+                                                b[at..at + 16].copy_from_slice(&c);
+                                                self.stats.bump("fault.net.patch_carries_other_tables_compat_id");
+                                            }
+                                            _ => b[at + 3] ^= 0x01,
+                                        }
                                     }
                                     _ => {
                                         if b.starts_with(b"ifgk") && b.len() > 29 {
@@ -1237,7 +1253,7 @@ pub fn gen_faults(rng: &mut Rng, max_round: u32) -> Vec<Fault> {
             2 => Fault::NetDup { round, fetch },
             3 => Fault::NetDelay { round, fetch, ticks: 1 + rng.below(30) as u32 },
             4 => Fault::NetTruncate { round, fetch, keep_permille: rng.below(1000) as u32 },
-            5 => Fault::NetCorruptHeader { round, fetch, which: rng.below(3) as u8 },
+            5 => Fault::NetCorruptHeader { round, fetch, which: rng.below(4) as u8 },
             6 => Fault::NetFlipBit { round, fetch, bit: rng.below(4096) as u32 },
             7 => Fault::NetStale { round, fetch, pick: rng.below(64) as u32 },
             8 | 9 => Fault::DecoderFail { round, call: rng.below(4) as u32, kind: rng.below(6) as u8 },
